@@ -191,7 +191,18 @@ def gen_diag(rng):
                 qs[i2] += qs[j]
                 qs[j] = 0
     vecs = [_gen_vec(rng, P, qs) for _ in range(rng.choice([0, 1, 1, 2, 2, 3]))]
-    return _encode(inst, qs, vecs)
+    # kind: 0 contiguous model, 1 its generic decoder model, 2 its view, 3 UniformModel
+    kind = rng.choice([0, 0, 1, 2])
+    if rng.random() < 0.2 and _valid(P, qs):
+        # UniformModel over n symbols: its table is [ppb]*(n-1) + [rest]; prefer ranges that do
+        # not divide 2^P (the last bin is then heavier)
+        n = rng.choice([2, 3, 5, 7, 10, rng.randint(2, min(300, 1 << P))])
+        n = max(2, min(n, 1 << P))
+        ppb = (1 << P) // n
+        qs = [ppb] * (n - 1) + [(1 << P) - ppb * (n - 1)]
+        vecs = [_gen_vec(rng, P, qs) for _ in range(rng.choice([0, 1, 2]))]
+        kind = 3
+    return _encode(inst + 100 * kind, qs, vecs)
 
 
 def gen_cert(rng):
@@ -205,7 +216,7 @@ def gen_cert(rng):
 # ------------------------------------------------------------------ parsing
 
 def _parse(inp):
-    inst = inp[0]
+    inst = inp[0] % 100        # inp[0] // 100 = which representation of the table is asked (kind)
     n = inp[1]
     qs = inp[2:2 + n]
     i = 2 + n
@@ -232,7 +243,7 @@ def exact_part(inp, out):
     """prefix of the implementation's output that the Coq model must reproduce bit for bit"""
     if len(out) == 1:
         return out
-    return out[:_exact_len(inp[0], inp[1])]
+    return out[:_exact_len(inp[0] % 100, inp[1])]
 
 
 # ------------------------------------------------------------------ high-precision reference
